@@ -44,7 +44,7 @@ Proof.
     rewrite run_micro_app, run_chunks. cbn [run_micro fold_left m_ack fst snd].
     rewrite app_assoc. reflexivity.
   - rewrite run_micro_app. cbn [run_micro fold_left]. unfold m_get. cbn [fst snd].
-    rewrite run_micro_app, run_chunks. cbn [run_micro fold_left m_ack m_process fst snd].
+    rewrite run_micro_app, run_chunks. cbn [run_micro fold_left]. unfold m_ack, m_process. cbn [fst snd].
     destruct (process c (encode_flush chunks (get_writer s))) as [s2 ev]. cbn [fst snd].
     rewrite <- app_assoc. reflexivity.
 Qed.
@@ -158,7 +158,7 @@ Proof.
     rewrite run_ops_app. reflexivity. }
   destruct (stream_suffix_invariant c pre (ops0 ++ ops1)) as (lost & kept & H1 & H2 & H3 & _ & H5).
   { apply append_restarts_app; [exact Happ|apply append_restarts_appends]. }
-  rewrite Hrun in H1, H2, H3, H5. cbn [fst snd] in H1, H2, H3, H5.
+  rewrite Hrun in H2, H3, H5. cbn [fst snd] in H2, H3, H5.
   exists lost, kept. unfold final, evs, stream. rewrite Hf, He.
   repeat split.
   - rewrite H1. unfold records. rewrite flat_map_app. fold (records ops0) (records ops1).
